@@ -32,11 +32,13 @@ import (
 //	integ   [chk=0|1] [rb=<n>] b:<hex>                      → ci=ok:<seq>|err:<class>:<seq> dec=ok:<seq>:<msgs>|err:<class>:<seq>
 //	integcx <flip|burst|trunc> [lo=<byte>] [hi=<byte>] [len=<k> pat=<w>] [chk=..] b:<hex>
 //	                                                         → n=<corruptions> ci_ok=<accepted> dec_ok=<accepted> h=<digest of outcome classes>
+//	integv  b:<hex>                                          → ok:<seq> | bad:<seq>   (CheckIntegrity only; spec mode = the reference)
 //	fitformat b:<hex>                                        → segments of the raw decoder: H<off>+<len> D.. M.. C..
 func init() {
 	families["integrity"] = genIntegrity
 	executors["integ"] = execInteg
 	executors["integcx"] = execIntegCx
+	executors["integv"] = execIntegV
 	executors["fitformat"] = execFitFormat
 }
 
@@ -135,6 +137,19 @@ func execInteg(args []string) string {
 	}
 	ci, dec := integRun(o, o.b)
 	return "ci=" + ci + " dec=" + dec
+}
+
+// integv b:<hex> → ok:<seq> | bad:<seq>: verdict and count of valid leading sequences of CheckIntegrity
+func execIntegV(args []string) string {
+	o, ok := parseIntegArgs(args)
+	if !ok {
+		return "bad-op"
+	}
+	n, err := decoder.New(bytes.NewReader(o.b), o.decOptions()...).CheckIntegrity()
+	if err == nil {
+		return fmt.Sprintf("ok:%d", n)
+	}
+	return fmt.Sprintf("bad:%d", n)
 }
 
 func integCode(s string) byte {
@@ -474,13 +489,30 @@ func integEncode(rng *Rng, cfg integEncCfg) []byte {
 		if cfg.hdr12 {
 			fit.FileHeader.Size = 12
 		}
-		if !cfg.v2 { // developer data needs protocol 2.0
+		if !cfg.v2 { // developer data and 64-bit types need protocol 2.0
 			for j := range fit.Messages {
-				fit.Messages[j].DeveloperFields = nil
+				m := &fit.Messages[j]
+				m.DeveloperFields = nil
+				kept := m.Fields[:0]
+				for _, f := range m.Fields {
+					if f.BaseType != basetype.Uint64 || len(kept) == 0 && len(m.Fields) == 1 {
+						if f.BaseType == basetype.Uint64 {
+							f = proto.Field{FieldBase: &proto.FieldBase{Name: factory.NameUnknown, Num: f.Num, BaseType: basetype.Uint8}, Value: proto.Uint8(7)}
+						}
+						kept = append(kept, f)
+					}
+				}
+				if len(kept) == 0 {
+					kept = append(kept, proto.Field{FieldBase: &proto.FieldBase{Name: factory.NameUnknown, Num: 1, BaseType: basetype.Uint8}, Value: proto.Uint8(7)})
+				}
+				m.Fields = kept
 			}
 		}
 		if err := enc.Encode(fit); err != nil {
 			count("encode-refused")
+			if os.Getenv("VERIF_DEBUG") != "" {
+				fmt.Fprintln(os.Stderr, "encode refused:", cfg, err)
+			}
 			return nil
 		}
 	}
@@ -664,7 +696,7 @@ func genIntegrity(emit func(string), tier string, rng *Rng) {
 		}
 	}
 	// ---- (b) encoder outputs under assorted options, with exhaustive corruption sweeps
-	nfiles, sweepMax := 60, 160
+	nfiles, sweepMax := 150, 200
 	if thorough {
 		nfiles, sweepMax = 1500, 2048
 	}
@@ -698,6 +730,12 @@ func genIntegrity(emit func(string), tier string, rng *Rng) {
 			if k > 2 {
 				pats = append(pats, 1<<(k-1)|1|(rng.Intn(1<<(k-2))<<1))
 			}
+			if len(b) > 200 { // long files: every bit position still, but three burst lengths with one random pattern each
+				if k != 2 && k != 9 && k != 16 {
+					continue
+				}
+				pats = pats[len(pats)-1:]
+			}
 			for _, w := range pats {
 				emit(fmt.Sprintf("integcx burst len=%d pat=%d lo=%d b:%s", k, w, hs, h))
 			}
@@ -707,20 +745,27 @@ func genIntegrity(emit func(string), tier string, rng *Rng) {
 		count(fmt.Sprintf("sweep-len<%d", bucket(len(b))))
 	}
 	nsweep := 0
-	maxSweeps := 12
+	maxSweeps := 50
 	if thorough {
-		maxSweeps = 400
+		maxSweeps = 700
 	}
+	nlong := 0
 	for _, b := range append(append([][]byte(nil), small...), outputs...) {
 		if len(b) <= sweepMax && nsweep < maxSweeps {
+			if len(b) > 200 {
+				if nlong >= 60 {
+					continue
+				}
+				nlong++
+			}
 			sweep(b)
 			nsweep++
 		}
 	}
 	// ---- (c) individual corruptions (small replays) and appended data
-	nind := 3000
+	nind := 12000
 	if thorough {
-		nind = 60000
+		nind = 150000
 	}
 	pool := append(append([][]byte(nil), small...), outputs...)
 	for i := 0; i < nind && len(pool) > 0; i++ {
@@ -761,9 +806,9 @@ func genIntegrity(emit func(string), tier string, rng *Rng) {
 		emit(integOp(rng.Intn(4) != 0, []int{0, 0, 0, 765, 5000}[rng.Intn(5)], b))
 	}
 	// ---- (d) arbitrary byte strings and multi-step mutations: differential against the reference
-	narb := 4000
+	narb := 16000
 	if thorough {
-		narb = 100000
+		narb = 400000
 	}
 	for i := 0; i < narb; i++ {
 		var b []byte
@@ -802,6 +847,10 @@ func genIntegrity(emit func(string), tier string, rng *Rng) {
 		if len(b) > 20000 {
 			b = b[:20000]
 		}
-		emit(integOp(true, 0, b))
+		if i%2 == 0 {
+			emit("integv b:" + hex.EncodeToString(b))
+		} else {
+			emit(integOp(true, 0, b))
+		}
 	}
 }
